@@ -24,11 +24,21 @@ func checkCloseDiscipline(c *core.Ctx, p *progFacts, rule string, f *ssa.Functio
 		done   map[*ssa.Alloc]bool
 		wait   map[*ssa.Alloc]bool
 	}
+	var goArgs []ssa.Value // arguments of the go statement being examined (for helpers taking the WaitGroup as a parameter)
 	wgOf := func(fn *ssa.Function, v ssa.Value) *ssa.Alloc {
-		// the WaitGroup a Done/Wait call acts on: a captured local of f (binding of the closure) or f's own local
+		// the WaitGroup a Done/Wait call acts on: a captured local of f (binding of the closure), f's own local,
+		// or a parameter of a helper started with `go helper(&wg, ...)`
 		switch x := v.(type) {
 		case *ssa.Alloc:
 			return x
+		case *ssa.Parameter:
+			for i, prm := range fn.Params {
+				if prm == x && i < len(goArgs) {
+					if a, ok := goArgs[i].(*ssa.Alloc); ok {
+						return a
+					}
+				}
+			}
 		case *ssa.FreeVar:
 			for i, fv := range fn.FreeVars {
 				if fv != x {
@@ -61,6 +71,7 @@ func checkCloseDiscipline(c *core.Ctx, p *progFacts, rule string, f *ssa.Functio
 			if gs.target == nil {
 				continue
 			}
+			goArgs = g.Common().Args
 			calleesOf(gs.target, 4, gs.reach)
 			for _, tb := range gs.target.Blocks {
 				for _, ti := range tb.Instrs {
@@ -100,7 +111,16 @@ func checkCloseDiscipline(c *core.Ctx, p *progFacts, rule string, f *ssa.Functio
 		for _, tb := range gs.target.Blocks {
 			for _, ti := range tb.Instrs {
 				if s, ok := ti.(*ssa.Send); ok {
-					for _, mc := range p.chanSources(s.Chan) {
+					ch := s.Chan
+					// a helper started as `go helper(&wg, done)`: the channel is this go statement's argument
+					if prm, ok := ch.(*ssa.Parameter); ok {
+						for i, fp := range gs.target.Params {
+							if fp == prm && i < len(gs.ins.Common().Args) {
+								ch = gs.ins.Common().Args[i]
+							}
+						}
+					}
+					for _, mc := range p.chanSources(ch) {
 						signal[mc] = w
 					}
 				}
